@@ -79,7 +79,9 @@ def as_iterable(interp, v, node=None):
 
 def enumerate_set(ip, s, increasing=False):
   """Assumed contract of iterating a (finite) set: some sequence that holds every member exactly
-  once, in an unspecified order - or in increasing order for sorted(set of ints)."""
+  once, in an unspecified order - or in increasing order for sorted(set of ints).  The position of
+  each member in that sequence is an array (`ip.last_positions`), so that invariants can say
+  "already visited" without a quantifier: x in the set and position[x] < idx."""
   ctx = ip.ctx
   res = ctx.fresh(V.Seq(s.key), "enum")
   n = res.length
@@ -87,17 +89,18 @@ def enumerate_set(ip, s, increasing=False):
   i, j = z3.Int("en?i%d" % q), z3.Int("en?j%d" % q)
   ks = s.key.sorts()[0]
   x = z3.Const("en?x%d" % q, ks)
-  pos = ip.uf("enum_pos!%d" % q, [ks], z3.IntSort())
+  pos = ctx.const("enum_pos", z3.ArraySort(ks, z3.IntSort()))
   (li,) = s.key.leaves(res.at(i)); (lj,) = s.key.leaves(res.at(j))
   ctx.assume(n >= 0)
-  ctx.assume(z3.ForAll([i], z3.Implies(z3.And(i >= 0, i < n), z3.Select(s.arr, li))))
+  ctx.assume(z3.ForAll([i], z3.Implies(z3.And(i >= 0, i < n),
+                                       z3.And(z3.Select(s.arr, li), z3.Select(pos, li) == i))))
   if increasing:
     ctx.assume(z3.ForAll([i, j], z3.Implies(z3.And(0 <= i, i < j, j < n), li < lj)))
-  else:
-    ctx.assume(z3.ForAll([i, j], z3.Implies(z3.And(0 <= i, i < j, j < n), li != lj)))
-  (lp,) = s.key.leaves(res.at(pos(x)))
+  (lp,) = s.key.leaves(res.at(z3.Select(pos, x)))
   ctx.assume(z3.ForAll([x], z3.Implies(z3.Select(s.arr, x),
-                                       z3.And(pos(x) >= 0, pos(x) < n, lp == x))))
+                                       z3.And(z3.Select(pos, x) >= 0, z3.Select(pos, x) < n, lp == x))))
+  ip.last_positions = SMap(s.key, V.Int, z3.K(ks, z3.BoolVal(True)), [pos])
+  ip.last_iterset = SSet(s.key, s.arr)
   ctx.assumed_contracts.add("iteration over a set / sorted(set): a sequence holding every member "
                             "exactly once (increasing for sorted)")
   return res
@@ -548,6 +551,7 @@ def m_sorted(ip, x, key=None, reverse=False):
 
 
 def m_set(ip, x=()):
+  if isinstance(x, SSet): return SSet(x.key, x.arr)          # set(a set): a copy
   if isinstance(x, SOpq) and ip.contract and ("set", x.kind) in ip.contract.hooks:
     return ip.contract.hooks[("set", x.kind)](ip, x)
   if isinstance(x, SSeq):
